@@ -37,6 +37,9 @@ Inductive hev :=
 | HRInitKey (xid : N) (s r mk e : kid) (idx ts : N) (pskid : nat) (er : kid) (ir : N) (new : kid)
     (* as HRInit, and UAPI private_key=<key new> issued while the handshake worker sits between
        ConsumeMessageInitiation and SendHandshakeResponse (after the worker is done if it never gets there) *)
+| HRInitLoad (xid : N) (s r mk e : kid) (idx ts : N) (pskid : nat) (er : kid) (ir : N) (ckid : N) (withmac2 : bool)
+    (* as HRInit while the device is under load; ckid names the cookie the device hands out to this source
+       (read off its reply; 0 if the reply could not be opened); withmac2: the initiation carries MAC2 under it *)
 | HGhost (k : kid)
     (* UAPI set  public_key=<pub k> update_only=true ...  for a key that is NOT configured: creates nothing *)
 | HAge (secs : N)
@@ -67,7 +70,9 @@ Record case := {
    response:  [2; to; len; sender; receiver; mac1 key owner; mac2 class]
    mac2 class: 1 = all zero, 2 = Mac(cookie, msg[:smac2]) under a cookie some party issued, 0 = anything else
    transport: [4; to; receiver; exchange whose ref keys open it; keepalive]
-   tun write: [5; from] *)
+   tun write: [5; from]
+   init has an 8th field: timestamp is TAI64N of now and not older than the previous one (1/0)
+   cookie reply: [3; len; receiver; the addressed initiator can open it (1/0)] *)
 Definition b2n (b : bool) : N := if b then 1 else 0.
 Definition k2n (k : kid) : N := N.of_nat k.
 
@@ -78,7 +83,8 @@ Record rsess := { rs_xid : N; rs_send : term; rs_recv : term; rs_ridx : N; rs_pe
 Record dinit := { di_xid : N; di_to : kid; di_msg : init_msg }.
 Record world := { w_dev : dev; w_sess : list rsess; w_dinits : list dinit;
                   w_dmsgs : list (N * N * term);   (* device handshake messages: exchange, sender index, MAC1 *)
-                  w_cookies : list term }.         (* cookies issued by ref parties *)
+                  w_cookies : list term;           (* cookies issued by ref parties *)
+                  w_refmac1 : term }.              (* MAC1 of the last initiation a ref party sent *)
 
 Definition mac2_class (cookies : list term) (body m1 m2 : term) : N :=
   if is_zero m2 then 1
@@ -94,13 +100,18 @@ Definition describe (dv : kid) (parties : list kid) (w : world) (o : out) : list
        first_kid (fun k => Paper.mac1_valid (TPub k) (init_body m) (i_mac1 m)) (dv :: parties);
        mac2_class (w_cookies w) (init_body m) (i_mac1 m) (i_mac2 m);
        first_kid (fun k => match Paper.consume_initiation k (fun pk => teqb pk (TPub dv)) m with
-                           | Some _ => true | None => false end) parties]
+                           | Some _ => true | None => false end) parties;
+       1]   (* the timestamp is a TAI64N label of the time of sending, not older than the previous one *)
   | OResp to m =>
       [2; k2n to; MessageResponseSize; r_sender m; r_receiver m;
        first_kid (fun k => Paper.mac1_valid (TPub k) (resp_body m) (r_mac1 m)) (dv :: parties);
        mac2_class (w_cookies w) (resp_body m) (r_mac1 m) (r_mac2 m)]
   | OTransport to receiver key ka => [4; k2n to; receiver; opener key (w_sess w); b2n ka]
   | OTunWrite from => [5; k2n from]
+  | OCookieReply receiver nonce c =>
+      (* the initiator opens it under Hash("cookie--" || device key) with the MAC1 of its own message *)
+      [3; MessageCookieReplySize; receiver;
+       match aead_open (cookie_key (TPub dv)) nonce c (w_refmac1 w) with Some _ => 1 | None => 0 end]
   end.
 
 Fixpoint find_sess (l : list rsess) (x : N) : option rsess :=
@@ -114,6 +125,10 @@ Definition peer_state (p : peer) : list N :=
 
 Definition remember_inits (xid : N) (outs : list out) (l : list dinit) : list dinit :=
   fold_left (fun acc o => match o with OInit to m => acc ++ [{| di_xid := xid; di_to := to; di_msg := m |}] | _ => acc end) outs l.
+
+Definition set_mac2 (m : init_msg) (t : term) : init_msg :=
+  {| i_type := i_type m; i_sender := i_sender m; i_eph := i_eph m; i_static := i_static m;
+     i_ts := i_ts m; i_mac1 := i_mac1 m; i_mac2 := t |}.
 
 Definition remember_msgs (xid : N) (outs : list out) (l : list (N * N * term)) : list (N * N * term) :=
   fold_left (fun acc o => match o with
@@ -153,7 +168,7 @@ Definition ref_initiates (w : world) (xid : N) (s r mk e : kid) (idx ts : N) (ps
             | _ => acc
             end) outs (w_sess w, 0) in
         ({| w_dev := d'; w_sess := sess; w_dinits := w_dinits w;
-            w_dmsgs := remember_msgs xid outs (w_dmsgs w); w_cookies := w_cookies w |}, outs, verdict)
+            w_dmsgs := remember_msgs xid outs (w_dmsgs w); w_cookies := w_cookies w; w_refmac1 := i_mac1 m' |}, outs, verdict)
       end.
 
 (* one step of the world: the device slice against paper parties; returns the
@@ -165,6 +180,10 @@ Definition wstep (w : world) (h : hev) : world * list out * N :=
       ref_initiates w xid s r mk e idx ts pskid (fun m' => EInit m' er ir)
   | HRInitKey xid s r mk e idx ts pskid er ir new =>
       ref_initiates w xid s r mk e idx ts pskid (fun m' => EInitKey m' er ir new)
+  | HRInitLoad xid s r mk e idx ts pskid er ir ckid withmac2 =>
+      let ck := TC (200 + N.to_nat ckid) in
+      ref_initiates w xid s r mk e idx ts pskid
+        (fun m' => EInitLoad (if withmac2 then set_mac2 m' (TMac ck (TPair (init_body m') (i_mac1 m'))) else m') er ir ck ckid)
   | HRResp xid ans r pskid e idx =>
       match find_dinit (w_dinits w) ans with
       | None => (w, [], 0)
@@ -185,7 +204,7 @@ Definition wstep (w : world) (h : hev) : world * list out * N :=
             let sess := w_sess w ++ [{| rs_xid := xid; rs_send := fst (Paper.responder_keys s2);
                                         rs_recv := snd (Paper.responder_keys s2); rs_ridx := i_sender m; rs_peer := r |}] in
             let '(d', outs) := dev_step (w_dev w) (EResp rm) in
-            ({| w_dev := d'; w_sess := sess; w_dinits := w_dinits w; w_dmsgs := w_dmsgs w; w_cookies := w_cookies w |}, outs, verdict)
+            ({| w_dev := d'; w_sess := sess; w_dinits := w_dinits w; w_dmsgs := w_dmsgs w; w_cookies := w_cookies w; w_refmac1 := w_refmac1 w |}, outs, verdict)
           end
         end
       end
@@ -195,26 +214,26 @@ Definition wstep (w : world) (h : hev) : world * list out * N :=
       | Some s =>
         let '(d', outs) := dev_step (w_dev w)
                              (EData (rs_ridx s) ctr (Paper.transport (rs_send s) ctr (if ka then TEmpty else TJunk 1))) in
-        ({| w_dev := d'; w_sess := w_sess w; w_dinits := w_dinits w; w_dmsgs := w_dmsgs w; w_cookies := w_cookies w |}, outs, 0)
+        ({| w_dev := d'; w_sess := w_sess w; w_dinits := w_dinits w; w_dmsgs := w_dmsgs w; w_cookies := w_cookies w; w_refmac1 := w_refmac1 w |}, outs, 0)
       end
   | HTun xid p e ts idx =>
       let '(d', outs) := dev_step (w_dev w) (ETun p e ts idx) in
       ({| w_dev := d'; w_sess := w_sess w; w_dinits := remember_inits xid outs (w_dinits w);
-          w_dmsgs := remember_msgs xid outs (w_dmsgs w); w_cookies := w_cookies w |}, outs, 0)
+          w_dmsgs := remember_msgs xid outs (w_dmsgs w); w_cookies := w_cookies w; w_refmac1 := w_refmac1 w |}, outs, 0)
   | HKick xid p e ts idx =>
       let '(d', outs) := dev_step (w_dev w) (EKick p e ts idx) in
       ({| w_dev := d'; w_sess := w_sess w; w_dinits := remember_inits xid outs (w_dinits w);
-          w_dmsgs := remember_msgs xid outs (w_dmsgs w); w_cookies := w_cookies w |}, outs, 0)
+          w_dmsgs := remember_msgs xid outs (w_dmsgs w); w_cookies := w_cookies w; w_refmac1 := w_refmac1 w |}, outs, 0)
   | HGhost _ => (w, [], 0)
   | HAge secs =>
       let '(d', outs) := dev_step (w_dev w) (EAge secs) in
-      ({| w_dev := d'; w_sess := w_sess w; w_dinits := w_dinits w; w_dmsgs := w_dmsgs w; w_cookies := w_cookies w |}, outs, 0)
+      ({| w_dev := d'; w_sess := w_sess w; w_dinits := w_dinits w; w_dmsgs := w_dmsgs w; w_cookies := w_cookies w; w_refmac1 := w_refmac1 w |}, outs, 0)
   | HSetKey new =>
       let '(d', outs) := dev_step (w_dev w) (ESetPrivateKey new) in
-      ({| w_dev := d'; w_sess := w_sess w; w_dinits := w_dinits w; w_dmsgs := w_dmsgs w; w_cookies := w_cookies w |}, outs, 0)
+      ({| w_dev := d'; w_sess := w_sess w; w_dinits := w_dinits w; w_dmsgs := w_dmsgs w; w_cookies := w_cookies w; w_refmac1 := w_refmac1 w |}, outs, 0)
   | HRestart =>
       let '(d', outs) := dev_step (w_dev w) ERestart in
-      ({| w_dev := d'; w_sess := w_sess w; w_dinits := w_dinits w; w_dmsgs := w_dmsgs w; w_cookies := w_cookies w |}, outs, 0)
+      ({| w_dev := d'; w_sess := w_sess w; w_dinits := w_dinits w; w_dmsgs := w_dmsgs w; w_cookies := w_cookies w; w_refmac1 := w_refmac1 w |}, outs, 0)
   | HCookie keykid msgx adx garbage cid =>
       match find_dmsg (w_dmsgs w) msgx with
       | None => (w, [], 0)
@@ -224,7 +243,7 @@ Definition wstep (w : world) (h : hev) : world * list out * N :=
         let c := if garbage then TJunk 8 else TAead (cookie_key (TPub keykid)) cid ck ad in
         let '(d', outs) := dev_step (w_dev w) (ECookie sidx cid c) in
         ({| w_dev := d'; w_sess := w_sess w; w_dinits := w_dinits w; w_dmsgs := w_dmsgs w;
-            w_cookies := ck :: w_cookies w |}, outs, 0)
+            w_cookies := ck :: w_cookies w; w_refmac1 := w_refmac1 w |}, outs, 0)
       end
   end.
 
@@ -233,7 +252,7 @@ Definition init_world (c : case) : world :=
                  d_peers := map (fun kp => new_peer (fst kp) (new_handshake (Some (c_dev c)) (fst kp) (psk_term (snd kp))))
                                 (c_conf c);
                  d_olds := [] |};
-     w_sess := []; w_dinits := []; w_dmsgs := []; w_cookies := [] |}.
+     w_sess := []; w_dinits := []; w_dmsgs := []; w_cookies := []; w_refmac1 := TZero |}.
 
 Fixpoint nlist_eqb (a b : list N) : bool :=
   match a, b with
@@ -308,7 +327,7 @@ Definition hs_msg_ok (conf : list (kid * nat)) (sps : list sp) (d : list N) : bo
   (* MAC2: zero absent a cookie; the MAC under a cookie the peer issued when one is held; either when unsure *)
   let mac2_ok (c : N) := match ck with 0 => c =? 1 | 2 => c =? 2 | _ => (c =? 1) || (c =? 2) end in
   if is_kind 1 d then
-    (nth0 d 2 =? MessageInitiationSize) && (nth0 d 4 =? nth0 d 1) && mac2_ok (nth0 d 5) && (nth0 d 6 =? nth0 d 1) &&
+    (nth0 d 2 =? MessageInitiationSize) && (nth0 d 4 =? nth0 d 1) && mac2_ok (nth0 d 5) && (nth0 d 6 =? nth0 d 1) && (nth0 d 7 =? 1) &&
     (match conf_psk conf (N.to_nat (nth0 d 1)) with Some _ => true | None => false end)
   else if is_kind 2 d then
     (nth0 d 2 =? MessageResponseSize) && (nth0 d 5 =? nth0 d 1) && mac2_ok (nth0 d 6)
@@ -445,6 +464,15 @@ Definition sstep (conf : list (kid * nat)) (s : sstate) (h : hev) (o : obs) : ss
           ss_x := {| x_id := xid; x_peer := sk; x_good := false |} :: ss_x s;
           ss_di := ss_di s; ss_dv := new; ss_dead := map fst conf; ss_dis := ss_dis s |},
        negb noop && (o_ref o =? 0) && match outs with [] => true | _ => false end)
+  | HRInitLoad xid sk r mk e idx ts pskid _ _ ckid withmac2 =>
+      (* under load, an initiation without a valid MAC2 whose MAC1 is keyed for the device gets exactly one
+         cookie reply, addressed to its sender index, that its sender can open; nothing else happens.
+         (With MAC2 under that cookie the step is judged as HRInit: see [norm].) *)
+      let n3 := count_kind 3 outs in
+      (s, base && no_kind 1 outs && no_kind 2 outs && no_kind 4 outs && no_kind 5 outs && (o_ref o =? 0) &&
+          (if Nat.eqb mk dv then Nat.eqb n3 1 else Nat.eqb n3 0) &&
+          forallb (fun d => if is_kind 3 d then (nth0 d 1 =? MessageCookieReplySize) && (nth0 d 2 =? idx) && (nth0 d 3 =? 1)
+                            else true) outs)
   | HGhost _ =>
       (* update_only for an unknown key configures nobody: nothing is sent, nothing changes *)
       (s, match outs with [] => true | _ => false end)
@@ -504,11 +532,18 @@ Definition slots_ok (conf : list (kid * nat)) (s : sstate) (o : obs) : bool :=
              Bool.eqb (negb (nth0 ps 2 =? 0)) (match sp_cur q with Some _ => true | None => false end))
           (combine conf (o_peers o)).
 
+(* a loaded initiation that carries MAC2 under the cookie the device handed out is an ordinary initiation *)
+Definition norm (h : hev) : hev :=
+  match h with
+  | HRInitLoad xid s r mk e idx ts pskid er ir ckid true => if ckid =? 0 then h else HRInit xid s r mk e idx ts pskid er ir
+  | _ => h
+  end.
+
 Fixpoint holds_from (conf : list (kid * nat)) (s : sstate) (steps : list (hev * obs)) (i : N) : option N :=
   match steps with
   | [] => None
   | (h, o) :: rest =>
-      let '(s', ok) := sstep conf s h o in
+      let '(s', ok) := sstep conf s (norm h) o in
       if ok && slots_ok conf s' o then holds_from conf s' rest (i + 1) else Some i
   end.
 
@@ -572,6 +607,7 @@ Definition stat_step (st : list N) (ho : hev * obs) : list N :=
   let outs := o_outs o in
   let st := match h with
             | HRInit _ _ _ _ _ _ _ _ _ _ => bump st (if no_kind 2 outs then 1 else 0)
+            | HRInitLoad _ _ _ _ _ _ _ _ _ _ _ _ => bump st (if no_kind 2 outs then 1 else 0)
             | HRInitKey _ _ _ _ _ _ _ _ _ _ _ => bump (bump st (if no_kind 2 outs then 1 else 0)) 11
             | HRResp _ _ _ _ _ _ => bump st (if no_kind 4 outs then 3 else 2)
             | HRData _ _ ka => if ka then st else bump st (if no_kind 5 outs then 5 else 4)
@@ -600,6 +636,8 @@ Definition rinit (xid s r mk e idx ts pskid er ir : N) : hev :=
   HRInit xid (n2k s) (n2k r) (n2k mk) (n2k e) idx ts (N.to_nat pskid) (n2k er) ir.
 Definition rinitkey (xid s r mk e idx ts pskid er ir new : N) : hev :=
   HRInitKey xid (n2k s) (n2k r) (n2k mk) (n2k e) idx ts (N.to_nat pskid) (n2k er) ir (n2k new).
+Definition rinitload (xid s r mk e idx ts pskid er ir ckid withmac2 : N) : hev :=
+  HRInitLoad xid (n2k s) (n2k r) (n2k mk) (n2k e) idx ts (N.to_nat pskid) (n2k er) ir ckid (negb (withmac2 =? 0)).
 Definition rresp (xid ans r pskid e idx : N) : hev := HRResp xid ans (n2k r) (N.to_nat pskid) (n2k e) idx.
 Definition rdata (xid ctr ka : N) : hev := HRData xid ctr (negb (ka =? 0)).
 Definition tun (xid p e ts idx : N) : hev := HTun xid (n2k p) (n2k e) ts idx.
